@@ -1,7 +1,7 @@
-// Run from the worktree root:
+// Copy this directory to <tree>/c19demo/<name>/ and run from the tree root:
 //
 //	export PATH=/opt/veriftools/go1.26.8/bin:$PATH GOTOOLCHAIN=local GOFLAGS=-mod=mod GOPROXY=off GOSUMDB=off
-//	go test ./AUDIT/demo/emu_concurrent_kernels/ -run TestTwoKernelsOnTheEmulationGPU -v
+//	go test ./c19demo/emu_concurrent_kernels/ -run TestTwoKernelsOnTheEmulationGPU -v
 //
 // (TestControlOneKernel in the same file is the passing control.)
 //
